@@ -10,7 +10,7 @@
 #include <string.h>
 #include <stdlib.h>
 
-enum { V_RESIZE = 1, V_RESERVE, V_SHRINK, V_CLEAR, V_SWAP, V_SORT, V_REVERSE, V_WRITE, V_AT, V_SEARCH, V_FIND };
+enum { V_RESIZE = 1, V_RESERVE, V_SHRINK, V_CLEAR, V_SWAP, V_SORT, V_REVERSE, V_WRITE, V_AT, V_SEARCH, V_FIND, V_CHURN };
 
 static const char *v_opname(int k)
 {
@@ -18,7 +18,7 @@ static const char *v_opname(int k)
     case V_RESIZE: return "resize"; case V_RESERVE: return "reserve"; case V_SHRINK: return "shrink_to_fit";
     case V_CLEAR: return "clear"; case V_SWAP: return "swap"; case V_SORT: return "sort";
     case V_REVERSE: return "reverse"; case V_WRITE: return "write"; case V_AT: return "at";
-    case V_SEARCH: return "search"; case V_FIND: return "find";
+    case V_SEARCH: return "search"; case V_FIND: return "find"; case V_CHURN: return "churn";
     }
     return "?";
 }
@@ -466,6 +466,32 @@ static void v_once(const plan_t *p)
             EVT(v_opname(o->kind), s, m->n, o->a[1] % 5);
             break;
         }
+        case V_CHURN: {
+            /* the n-th repetition: the vector grows by one element and shrinks again 254 ... 65 536 times in a row; the
+             * constructor and destructor must have run once per cycle, on the slot at the old size, and nothing else moves */
+            static const unsigned reps[] = { 254, 255, 256, 65534, 65535, 65536 };
+            unsigned n = reps[o->a[1] % 6], q; size_t on = m->n; int bad = 0;
+            if (p->mode == 16 || on + 1 >= MAXN) { EVT("skip", 0, 0, 0); break; }
+            g_cur_ctx = n > 60000 ? "churn-2^16" : "churn-2^8";
+            TRY(cstl_vector_reserve(v, on + 1));
+            if (cstl_vector_capacity(v) < on + 1) { EVT("skip", 0, 0, 0); break; }
+            ncons = ndest = 0; xtor_bad = 0;
+            g_inlib = 1;
+            for (q = 0; q < n; q++) {
+                cstl_vector_resize(v, on + 1);
+                if (cstl_vector_size(v) != on + 1) { bad = 1; break; }
+                cstl_vector_resize(v, on);
+                if (cstl_vector_size(v) != on) { bad = 2; break; }
+            }
+            g_inlib = 0;
+            if (bad) VIOL("churn", "repetition %u of grow-by-one / shrink-by-one left size %zu (was %zu)", q, cstl_vector_size(v), on);
+            if (m->has_cons && (unsigned)ncons != n) VIOL("cons_count", "%u grow-by-one / shrink-by-one cycles ran the constructor %d times", n, ncons);
+            if (m->has_dest && (unsigned)ndest != n) VIOL("dest_count", "%u grow-by-one / shrink-by-one cycles ran the destructor %d times", n, ndest);
+            m->tag[on] = UNKNOWN;
+            PROBE(n > 60000 ? "churn_2^16" : "churn_2^8");
+            EVT("churn", s, n, on);
+            break;
+        }
         case V_WRITE: {
             size_t i; unsigned char *base = cstl_vector_data(v);
             if (m->n == 0) { EVT("skip", 0, 0, 0); break; }
@@ -623,6 +649,7 @@ static void v_gen(prng_t *r, int mode, plan_t *p)
         int kind = x < 32 ? V_RESIZE : x < 46 ? V_RESERVE : x < 54 ? V_SHRINK : x < 58 ? V_CLEAR : x < 63 ? V_SWAP
                  : x < 71 ? V_SORT : x < 77 ? V_REVERSE : x < 92 ? V_WRITE : V_AT;
         op_t *o;
+        if (kind == V_WRITE && mode == 9 && prng_chance(r, 1, 500)) kind = V_CHURN;
         if (mode == 11) kind = x < 14 ? V_RESIZE : x < 18 ? V_RESERVE : x < 21 ? V_SHRINK : x < 23 ? V_CLEAR : x < 27 ? V_SWAP
                  : x < 42 ? V_SORT : x < 50 ? V_REVERSE : x < 62 ? V_WRITE : x < 82 ? V_SEARCH : x < 97 ? V_FIND : V_AT;
         o = plan_add(p, kind);
